@@ -456,6 +456,8 @@ class History:
         fac = pool.solvers[si]["recipe"]["factory"]
         d = {"op": "solve", "solver": si, "basis": bi, "bc": rng.choice(["condense", "condense", "enforce"]),
              "inhom": rng.random() < 0.5, "salt": rng.randint(0, 3), "kw": {}}
+        if fac == "solver_direct_scipy" and rng.random() < 0.5:
+            d["bc"] = "mpc"      # reduced matrix is not symmetric: direct backend only
         if rng.random() < 0.35:
             if fac in ("solver_iter_pcg", "solver_iter_krylov"):
                 d["kw"] = rng.choice([{"rtol": 1e-3}, {"maxiter": 2}, {"rtol": 1e-12, "atol": 0.0}])
